@@ -302,12 +302,43 @@ theorem malvar_kernels_symmetric (src : Src) (k : List (List Rat)) (h : Generate
     ∀ a ∈ List.range 5, ∀ b ∈ List.range 5, kernelAt k a b = kernelAt k (4 - a) (4 - b) := by
   cases src <;> simp only [Generated.C16.srcKernel, Option.some.injEq, reduceCtorEq] at h <;> subst h <;> decide +kernel
 
+/-- unit-sum kernels at work: a uniform mosaic demosaicks to the same uniform level in every channel,
+at every sample, for every shape (reflect boundary included) and both layouts -/
+theorem malvar_constant_level (cfa : Cfa) (m n : ℕ) (v : Rat) (ch : Chan) (R C : ℕ) :
+    malvar Generated.C16.siteSlices (Generated.C16.malvarSrc cfa) m n (fun _ _ => v) ch R C = v := by
+  unfold malvar
+  rw [siteAt_eq]
+  simp only
+  cases h : Model.C16.srcKernel (Generated.C16.malvarSrc cfa ch (siteOfParity R C)) with
+  | none => rfl
+  | some k =>
+    simp only
+    have hk : k = Model.C16.kernelGAtRB ∨ k = Model.C16.kernelRAtGInRB ∨ k = Model.C16.kernelRAtGInBR ∨ k = Model.C16.kernelRAtBInBB := by
+      revert h; cases (Generated.C16.malvarSrc cfa ch (siteOfParity R C)) <;> simp [Model.C16.srcKernel] <;> intro h <;> simp [← h]
+    rcases hk with rfl | rfl | rfl | rfl <;>
+      simp [convolve5, Num.sumTo, kernelAt, Model.C16.kernelGAtRB, Model.C16.kernelRAtGInRB, Model.C16.kernelRAtGInBR,
+        Model.C16.kernelRAtBInBB, Model.C16.malvarDivisor, Num.ofInt] <;> ring
+
 end bayer
 
 /-! ## non-vacuity and the pinned failure -/
 
 /-- the pinned ceiling `2^bits` wraps to 0 in an 8-, 16- and 32-bit container; `2^bits − 1` does not -/
 example : castU 8 (2 ^ 8) = 0 ∧ castU 16 (2 ^ 16) = 0 ∧ castU 32 (2 ^ 32) = 0 ∧ castU 8 (2 ^ 8 - 1) = 255 := by decide
+
+/-- negative witness for the pinned ceiling (model with an explicit ceiling `2^8` instead of `2^8 − 1`): at unit
+gain 255 e⁻ reads 255 DN but the brighter 256 e⁻ reads 0 DN — the brightest pixels come out black -/
+example : castU 8 ⌊exposePreCap (K := ℚ) (2 ^ 8) 255 1 0 1 1 0 100000 1⌋ = 255 ∧
+    castU 8 ⌊exposePreCap (K := ℚ) (2 ^ 8) 256 1 0 1 1 0 100000 1⌋ = 0 := by
+  rw [exposePreCap_eq, exposePreCap_eq]
+  norm_num
+  constructor <;> decide
+
+/-- …and for a 12-bit converter the pinned ceiling reads one count above full scale -/
+example : castU 16 ⌊exposePreCap (K := ℚ) (2 ^ 12) 5000 1 0 1 1 0 100000 1⌋ = 4096 := by
+  rw [exposePreCap_eq]
+  norm_num
+  decide
 
 /-- a saturated 8-bit pixel: 1000 e⁻ at unit gain reads 255 -/
 example : dn (K := ℚ) 1000 1 0 1 1 0 100000 1 8 = 255 := by
